@@ -388,15 +388,103 @@ PREREQ = {"Error": "#[derive(Debug, derive_more::Display)] ", "Sum": "#[derive(d
 PREREQ_REQ = {"Error": ("Display", ""), "Sum": ("Add", ""), "Product": ("Mul", "#[mul(forward)] "), "DerefMut": ("Deref", ""), "IndexMut": ("Index", "")}
 
 
+def container_attrs(d):
+    """container-level helper attributes of derive `d` (documented modes), to be combined with every shape"""
+    if d in MUL:
+        return ["#[%s(forward)]" % SNAKE[d]]
+    if d in MULA:
+        return ["#[%s_assign(forward)]" % SNAKE[d[:-6]]]
+    if d in ("AsRef", "AsMut"):
+        a = "as_ref" if d == "AsRef" else "as_mut"
+        return ["#[%s(forward)]" % a]
+    if d == "From":
+        return ["#[from(forward)]"]     # (type lists must fit the fields: they are in the support table, per shape)
+    if d == "Into":
+        return ["#[into(owned, ref, ref_mut)]", "#[into(ref)]"]
+    if d in ("Deref", "DerefMut"):
+        return ["#[deref(forward)] #[deref_mut(forward)]" if d == "DerefMut" else "#[deref(forward)]"]
+    if d == "IntoIterator":
+        return ["#[into_iterator(owned, ref, ref_mut)]", "#[into_iterator(ref)]"]
+    if d in ("Unwrap", "TryUnwrap"):
+        a = "unwrap" if d == "Unwrap" else "try_unwrap"
+        return ["#[%s(ref, ref_mut)]" % a, "#[%s(owned, ref)]" % a]
+    if d == "TryInto":
+        return ["#[try_into(owned, ref, ref_mut)]", "#[try_into(ref)]"]
+    if d == "TryFrom":
+        return ["#[try_from(repr)]"]
+    if d in FMT:
+        return ['#[%s("x")]' % FMT[d], '#[%s("{}", 1u8)]' % FMT[d], '#[%s("<{_variant}>")]' % FMT[d]]
+    if d == "Debug":
+        return ['#[debug("x")]', '#[debug("{}", 1u8)]']
+    return []
+
+
+def member_attrs(d):
+    """(level, attribute) pairs: documented helper attributes of derive `d` for variants / fields"""
+    two = {"AsRef": "as_ref", "AsMut": "as_mut", "Index": "index", "IntoIterator": "into_iterator", "Deref": "deref"}
+    if d == "From":
+        return [("variant", "#[from]"), ("variant", "#[from(skip)]"), ("variant", "#[from(ignore)]"), ("variant", "#[from(forward)]")]
+    if d == "Into":
+        return [("field", "#[into]"), ("field", "#[into(skip)]"), ("field", "#[into(ref)]")]
+    if d in ("AsRef", "AsMut"):
+        a = two.get(d, "as_mut")
+        return [("field", "#[%s]" % a), ("field", "#[%s(skip)]" % a), ("field", "#[%s(forward)]" % a)]
+    if d == "Deref":
+        return [("field", "#[deref]"), ("field", "#[deref(ignore)]"), ("field", "#[deref(forward)]")]
+    if d == "DerefMut":
+        return [("field", "#[deref] #[deref_mut]"), ("field", "#[deref(ignore)] #[deref_mut(ignore)]"), ("field", "#[deref(forward)] #[deref_mut(forward)]")]
+    if d == "Index":
+        return [("field", "#[index]"), ("field", "#[index(ignore)]")]
+    if d == "IndexMut":
+        return [("field", "#[index] #[index_mut]"), ("field", "#[index(ignore)] #[index_mut(ignore)]")]
+    if d == "IntoIterator":
+        return [("field", "#[into_iterator]"), ("field", "#[into_iterator(ignore)]"), ("field", "#[into_iterator(ref)]")]
+    if d == "IsVariant":
+        return [("variant", "#[is_variant(ignore)]"), ("variant", "#[is_variant]")]
+    if d in ("Unwrap", "TryUnwrap"):
+        a = "unwrap" if d == "Unwrap" else "try_unwrap"
+        return [("variant", "#[%s(ignore)]" % a), ("variant", "#[%s(ref)]" % a), ("variant", "#[%s(owned, ref_mut)]" % a)]
+    if d == "TryInto":
+        return [("variant", "#[try_into(ignore)]"), ("field", "#[try_into(ignore)]"), ("variant", "#[try_into(owned, ref)]")]
+    if d == "Debug":
+        return [("field", "#[debug(skip)]"), ("field", '#[debug("f")]'), ("variant", '#[debug("v")]'), ("field", '#[debug("{}", 1u8)]')]
+    if d in FMT:
+        return [("variant", '#[%s("v")]' % FMT[d]), ("variant", '#[%s("{}", 1u8)]' % FMT[d])]
+    if d == "Error":
+        return [("field", "#[error(source)]"), ("field", "#[error(not(source))]"), ("variant", "#[error(ignore)]"), ("field", "#[error(not(backtrace))]")]
+    return []
+
+
 def part_accepted_compiles(chk, thorough):
     """Degenerate shapes (no fields at all, written `;`, `()` or `{}`; enums with no or only empty variants; unions) are where the
     documentation says least.  Whatever a derive does with them, it must be one of two things: a diagnostic, or code that
     compiles - every (derive, shape) the expander ACCEPTS in-process is compiled."""
     derives = sorted(table())
     pairs = [(d, it) for d in derives for it in EMPTY_SHAPES + PLAIN_SHAPES]
+    pairs += [(d, "%s %s" % (a, it)) for d in derives for a in container_attrs(d) for it in EMPTY_SHAPES + PLAIN_SHAPES if "_variant" not in a or "enum " in it]
     res = svc([{"derive": d, "item": it} for d, it in pairs])
+    # helper attributes on the first / the last / every variant or field of every shape (placed by the engine, which also returns the text)
+    dreqs = []
+    for d in derives:
+        for level, attr in member_attrs(d):
+            for which in ("first", "last", "all"):
+                for it in EMPTY_SHAPES + PLAIN_SHAPES:
+                    if d == "Error" and "'a" in it:
+                        continue     # an error source must be 'static
+                    dreqs.append({"derive": d, "item": it, "decorate": {"level": level, "which": which, "attr": attr}})
+    dres = svc(dreqs)
+    seen = set(pairs)
+    on_all = set()     # the same conversion attribute on every member can make the user's impls overlap (E0119): theirs, not the derive's
+    for q, r in zip(dreqs, dres):
+        if r["k"] == "parsefail" or (q["derive"], r.get("item")) in seen:
+            continue     # nothing to decorate (no such member) / same text as another placement
+        seen.add((q["derive"], r["item"]))
+        pairs.append((q["derive"], r["item"]))
+        res.append(r)
+        if q["decorate"]["which"] == "all":
+            on_all.add((q["derive"], r["item"]))
     # the derive whose impl the subject builds on must accept the shape too, or there is nothing to compile against
-    pre = svc([{"derive": PREREQ_REQ[d][0], "item": PREREQ_REQ[d][1] + it} if d in PREREQ_REQ else {"derive": "Debug", "item": it} for d, it in pairs])
+    pre = svc([{"derive": PREREQ_REQ[d][0], "item": PREREQ_REQ[d][1] + it} if d in PREREQ_REQ else {"derive": "Debug", "item": "struct Q;"} for d, it in pairs])
     cases = []
     for (d, it), r, pr in zip(pairs, res, pre):
         chk.count(states=1, transitions=1)
@@ -407,7 +495,7 @@ def part_accepted_compiles(chk, thorough):
             chk.outcome("degenerate-prerequisite-derive-diagnosed")
             continue
         src = "%s#[derive(derive_more::%s)] %s" % (PREREQ.get(d, ""), d, it)
-        cases.append(Case("g%d" % len(cases), "#[allow(unused_imports)] use super::*;\n" + src, has_run=False, meta=dict(derive=d, src=src, twin=it)))
+        cases.append(Case("g%d" % len(cases), "#[allow(unused_imports)] use super::*;\n" + src, has_run=False, meta=dict(derive=d, src=src, twin=it, on_all=(d, it) in on_all)))
     eng = CompileEngine("C01G", header=HEADER, prelude=PRELUDE, mode="check", per_bin=max(20, len(cases) // 16 + 1))
     results = eng.run_cases(cases)
     for c in cases:
@@ -415,6 +503,9 @@ def part_accepted_compiles(chk, thorough):
         chk.count(states=1, transitions=1)
         if r.compile == "ok":
             chk.outcome("degenerate-accepted-compiles")
+            continue
+        if c.meta["on_all"] and r.diags and all("E0119" in d["rendered"] for d in r.diags):
+            chk.outcome("degenerate-accepted-users-impls-overlap")
             continue
         chk.outcome("degenerate-accepted-%s" % r.compile)
         msg = re.sub(r"g\d+::", "", r.diags[0]["message"]) if r.diags else "?"
